@@ -75,8 +75,19 @@ def nrows(data: Any) -> int:
     return len(data)
 
 
-def with_columns(data: Any, new: Dict[str, List[Any]]) -> Any:
-    """data (native) + new columns, in the same native type."""
+def with_columns(data: Any, new: Dict[str, List[Any]], inplace: bool = False) -> Any:
+    """data (native) + new columns, in the same native type.  inplace: the incoming pandas frame / list of row dicts is
+    extended in place and returned (what mloda's built-in pandas and python-dict feature groups do); pyarrow tables are
+    immutable."""
+    if inplace and hasattr(data, "columns") and not hasattr(data, "column_names"):
+        for k, v in new.items():
+            data[k] = v
+        return data
+    if inplace and isinstance(data, list):
+        for i, r in enumerate(data):
+            for k, v in new.items():
+                r[k] = v[i]
+        return data
     if hasattr(data, "column_names"):
         import pyarrow as pa
         for k, v in new.items():
@@ -258,7 +269,7 @@ class Universe:
                         col = column_values(data, inp)
                         vals = [None if (a is None or b is None) else a + coef * b for a, b in zip(vals, col)]
                     new[n] = vals
-                out = with_columns(data, new)
+                out = with_columns(data, new, inplace=bool(uni.spec.get("inplace")))
                 uni.listener.on_exit(gname, names)
                 return out
             ns["match_feature_group_criteria"] = classmethod(match_feature_group_criteria)
